@@ -221,13 +221,24 @@ def recv (parseOk : Addr → Bool) (s : Sock) : Sock × Out :=
 def drain (s : Sock) : Sock × Out :=
   (Sock.empty, .drained s.bytes.length s.leaked)
 
+/-- a peer that writes the manifest and the descriptors itself (a misbehaving or
+    dying old worker): any manifest, any descriptor list -/
+def sendRaw (s : Sock) (m : Manifest) (fds : List Fd) : Sock × Out :=
+  if s.dirty ∨ s.bytes ≠ [] ∨ s.fds ≠ [] then (s, .unmodelled)
+  else if fds.length > kernelMaxFds then (s, .sendErr)
+  else
+    let msg := encode m
+    ({ s with bytes := msg, fds := fds }, .sent msg.length fds.length)
+
 inductive Op where
   | send (l : Listeners)
+  | sendRaw (m : Manifest) (fds : List Fd)
   | recv
   | drain
 
 def step (parseOk : Addr → Bool) (s : Sock) : Op → Sock × Out
   | .send l => send s l
+  | .sendRaw m fds => sendRaw s m fds
   | .recv => recv parseOk s
   | .drain => drain s
 
